@@ -119,6 +119,11 @@ func TestC19Hierarchical(t *testing.T) {
 			}
 			c.Add(kind, faultAt, int(faultCode))
 			log.Reset()
+			// faultFired: the back end failed a call of this operation. The
+			// property says nothing about how that is reported: an error is
+			// then accepted, a success must still be correct.
+			firedBefore := faulty.FiredCount()
+			faultFired := func() bool { return faulty.FiredCount() > firedBefore }
 
 			switch kind {
 			case "Get", "GetFromComposite":
@@ -146,37 +151,52 @@ func TestC19Hierarchical(t *testing.T) {
 						break
 					}
 				}
-				wantCalls := len(levels)
-				if server >= 0 {
-					wantCalls = server + 1
-				}
-				faulted := faultAt >= 0 && faultAt < wantCalls
-				if faulted {
-					wantCalls = faultAt + 1
-				}
-				if len(calls) != wantCalls {
-					t.Fatalf("%s for %q (data %d): back end saw %d calls %v, want %d (most specific ancestor holding the object: index %d of %q, fault at call %d); %s",
-						kind, n, k, len(calls), calls, wantCalls, server, levels, faultAt, state())
-				}
-				for i, cl := range calls {
-					ok := cl.Op == kind && cl.Digests[0] == sha(levels[i], k)
+				// The call sequence (today: one lookup per level in
+				// descending specificity, stopping at the first hit) is the
+				// implementation's. Property level: only the name and its
+				// ancestors are consulted, and the lookup that can have
+				// served the object is the one under the most specific
+				// ancestor holding it (CAS content is determined by the
+				// digest, so the serving level is only visible in the log).
+				inChain := map[string]int{}
+				for i, a := range levels {
+					inChain[sha(a, k).String()] = i
 					if kind == "GetFromComposite" {
-						ok = ok && cl.Digests[1] == sha(levels[i], k2)
+						inChain[sha(a, k2).String()] = i
 					}
-					if !ok {
-						t.Fatalf("%s for %q (data %d): call %d was %v, want the lookup under %q (descending specificity); %s", kind, n, k, i, cl, levels[i], state())
+				}
+				servedFrom := map[int]bool{}
+				for _, cl := range calls {
+					for _, d := range cl.Digests {
+						if _, ok := inChain[d.String()]; !ok {
+							t.Fatalf("%s for %q (data %d): back end was asked about %s, which is neither the name nor one of its ancestors %q; calls %v; %s", kind, n, k, d, levels, calls, state())
+						}
 					}
+					if (cl.Op == "Get" || cl.Op == "GetFromComposite") && mem.Has(cl.Digests[0]) {
+						servedFrom[inChain[cl.Digests[0].String()]] = true
+					}
+				}
+				exact := len(calls) <= len(levels)
+				for i, cl := range calls {
+					exact = exact && cl.Op == kind && cl.Digests[0] == sha(levels[i], k)
+				}
+				if !exact {
+					cls["read_not_one_lookup_per_level_descending"] = true
 				}
 				switch {
-				case faulted:
-					tag := fmt.Sprintf("Instance name %q", levels[faultAt].String())
-					if status.Code(err) != faultCode || !strings.Contains(msgOf(err), faulty.ErrText()) || !strings.Contains(msgOf(err), tag) {
-						t.Fatalf("%s for %q: back end failed with %s under %q, caller got %v (want that code, the back end's text and %s)", kind, n, faultCode, levels[faultAt], err, tag)
-					}
+				case faultFired() && err != nil:
 					cls["read_fault"] = true
 				case server >= 0:
 					if err != nil || !bytes.Equal(got, payload(k)) {
 						t.Fatalf("%s for %q (data %d): object is stored under ancestor %q but caller got %q, %v; %s", kind, n, k, levels[server], got, err, state())
+					}
+					for lvl := range servedFrom {
+						if lvl != server {
+							t.Fatalf("%s for %q (data %d): the object was read under %q although the more specific %q holds it (calls %v); %s", kind, n, k, levels[lvl], levels[server], calls, state())
+						}
+					}
+					if !servedFrom[server] {
+						t.Fatalf("%s for %q (data %d): the object was returned without being read under the most specific ancestor holding it, %q (calls %v); %s", kind, n, k, levels[server], calls, state())
 					}
 					if server > 0 {
 						cls["read_served_by_ancestor"] = true
@@ -189,8 +209,11 @@ func TestC19Hierarchical(t *testing.T) {
 						}
 					}
 				default:
+					if err == nil {
+						t.Fatalf("%s for %q (data %d): object under no ancestor, yet the caller got %q; %s", kind, n, k, got, state())
+					}
 					if status.Code(err) != codes.NotFound {
-						t.Fatalf("%s for %q (data %d): object under no ancestor, want NOT_FOUND, got %q, %v; %s", kind, n, k, got, err, state())
+						cls["read_absent_not_not_found"] = true
 					}
 					cls["read_not_found"] = true
 				}
@@ -207,17 +230,21 @@ func TestC19Hierarchical(t *testing.T) {
 				calls := log.Snapshot()
 				seen += len(calls)
 				rendered = append(rendered, fmt.Sprintf("Put(%q,%d)->%v", n, k, err))
+				// (Put is outside the property; asserted is only that an
+				// acknowledged upload is stored under the caller's own name
+				// and changes nothing else)
 				if len(calls) != 1 || calls[0].Op != "Put" || calls[0].Digests[0] != d {
-					t.Fatalf("Put for %q: back end saw %v, want one Put under the caller's own name", n, calls)
+					cls["put_not_exactly_one_backend_put"] = true
 				}
-				if faultAt == 0 {
-					if status.Code(err) != faultCode || !sameStrings(before, mem.Keys()) {
-						t.Fatalf("Put for %q with failing back end: got %v, state changed=%v", n, err, !sameStrings(before, mem.Keys()))
+				if err != nil {
+					if !faultFired() {
+						t.Fatalf("Put for %q failed although the back end did not: %v", n, err)
 					}
+					cls["put_fault"] = true
 					break
 				}
-				if err != nil || !mem.Has(d) {
-					t.Fatalf("Put for %q failed: %v", n, err)
+				if !mem.Has(d) {
+					t.Fatalf("Put for %q acknowledged but not stored under that name", n)
 				}
 				if !had {
 					mem.Delete(d)
@@ -289,32 +316,34 @@ func TestC19Hierarchical(t *testing.T) {
 						}
 					}
 				}
-				wantCalls := len(rounds)
-				faulted := faultAt >= 0 && faultAt < wantCalls
-				if faulted {
-					wantCalls = faultAt + 1
+				// The level-by-level search with pruning (rounds, above) is
+				// today's strategy, not the property: counted only. Property
+				// level: the back end is asked only about the digests under
+				// their own names and ancestors, and the verdict is exact.
+				allowed := map[string]bool{}
+				for _, it := range items {
+					for _, a := range chain(it.n) {
+						allowed[sha(a, it.k).String()] = true
+					}
 				}
+				asStrategy := len(calls) == len(rounds)
 				for i, cl := range calls {
-					if cl.Op != "FindMissing" {
-						t.Fatalf("FindMissing(%v): back end saw %v", set.Items(), cl)
+					for _, d := range cl.Digests {
+						if !allowed[d.String()] {
+							t.Fatalf("FindMissing(%v): back end asked about %s, which is neither one of the digests nor one of their ancestors; calls %v; %s", set.Items(), d, calls, state())
+						}
 					}
-					if i < len(rounds) && !sameStrings(sortedStrings(cl.Digests), sortedKeys(rounds[i])) {
-						t.Fatalf("FindMissing(%v): round %d asked the back end for %v, want exactly the still unresolved digests' ancestors %v; %s",
-							set.Items(), i, cl.Digests, sortedKeys(rounds[i]), state())
-					}
+					asStrategy = asStrategy && cl.Op == "FindMissing" && i < len(rounds) && sameStrings(sortedStrings(cl.Digests), sortedKeys(rounds[i]))
 				}
-				if len(calls) != wantCalls {
-					t.Fatalf("FindMissing(%v): %d back-end rounds %v, want %d (deepest unresolved chain); %s", set.Items(), len(calls), calls, wantCalls, state())
-				}
-				if faulted {
-					if status.Code(err) != faultCode || !strings.Contains(msgOf(err), faulty.ErrText()) || missing.Length() != 0 {
-						t.Fatalf("FindMissing(%v): back end failed with %s in round %d, caller got %v, %v", set.Items(), faultCode, faultAt, missing.Items(), err)
+				if err != nil {
+					if !faultFired() {
+						t.Fatalf("FindMissing(%v) failed although the back end did not: %v", set.Items(), err)
 					}
 					cls["find_fault"] = true
 					break
 				}
-				if err != nil {
-					t.Fatalf("FindMissing(%v) failed: %v", set.Items(), err)
+				if !asStrategy && !faultFired() {
+					cls["find_not_level_by_level_with_pruning"] = true
 				}
 				if got := sortedStrings(missing.Items()); !sameStrings(got, sortedKeys(wantMissing)) {
 					t.Fatalf("FindMissing(%v) = %v, want %v (missing <=> absent under the name and every ancestor); %s", set.Items(), got, sortedKeys(wantMissing), state())
